@@ -310,6 +310,16 @@ def run(ctx):
             one(doc, "mother-spellings", rd)
     for doc, ev in A.other_family_docs():
         one(doc, "other-families", readers[len(ev) % 3])
+    # a partial daughter that is also one of the final-state particles of the event type, with separately written decays (a K(S)0
+    # of the final state reconstructed in two modes): it is replaced by every one of them like any other partial daughter
+    leaf = lambda n_: ["D", n_, None, None, []]
+    for fsname, modes in (("K(S)0", [("pi+", "pi-"), ("pi0", "pi0")]), ("pi0", [("gamma", "gamma")]), ("eta", [("gamma", "gamma"), ("pi0", "pi0")])):
+        doc = [["event_type", ["D0", fsname, "pi+", "pi-"]],
+               ["line", ["D", "D0", None, None, [leaf(fsname), A.two_body(rng, "rho(770)0", tag=False)]]] + A.coupling(rng)]
+        for k_, (a_, b_) in enumerate(modes):
+            doc.append(["line", ["D", fsname, "S" if k_ else None, None, [leaf(a_), leaf(b_)]]] + A.coupling(rng))
+        for rd in readers:
+            one(doc, "final-state-particle-with-own-decays", rd)
     # few lines, deep nesting: a partial daughter several levels down in a file of only one to three decay lines (each written
     # line may supply several levels of nesting by itself); reading only - these five-body event types are not converted
     deep = [("B-", ["K-", "pi+", "pi-", "pi+", "pi-"], ["D", "B-", None, None, [["D", "D0", None, None, [["D", "K(1)(1270)bar-", None, None,
